@@ -293,3 +293,56 @@ pub fn approx(x: f64) -> String {
 pub fn close(a: f64, b: f64) -> bool {
     (a - b).abs() <= 1e-9 * 1f64.max(a.abs()).max(b.abs())
 }
+
+/// Oracle for one sweep, evaluated on the real before/after data only.
+pub fn sweep_oracle(cfg: &Cfg, out: &RunOut) -> Result<(), String> {
+    let before = padded(cfg);
+    if out.slots.len() != before.len().max(cfg.slots.len()) {
+        return Err(format!("container length {} after the sweep, expected {}", out.slots.len(), before.len()));
+    }
+    if out.n != count_ops(&out.slots) {
+        return Err(format!("get_n() = {} but the container holds {} ops", out.n, count_ops(&out.slots)));
+    }
+    let mut rolling = cfg.state.clone();
+    for p in 0..before.len() {
+        let b = &before[p];
+        let a = &out.slots[p];
+        if is_offdiag(b) {
+            if a != b {
+                return Err(format!("off-diagonal operator at p={} was altered", p));
+            }
+            let op = b.as_ref().unwrap();
+            for (v, o) in op.get_vars().iter().zip(op.get_outputs().iter()) {
+                rolling[*v] = *o;
+            }
+            continue;
+        }
+        match (b, a) {
+            (_, None) => {}
+            (Some(x), Some(y)) if x == y => {}
+            (Some(_), Some(_)) => return Err(format!("diagonal operator at p={} was replaced", p)),
+            (None, Some(y)) => {
+                if !y.is_diagonal() {
+                    return Err(format!("off-diagonal operator created at p={}", p));
+                }
+                let bond = y.get_bond();
+                if bond >= cfg.bonds.len() {
+                    return Err(format!("inserted bond {} does not exist", bond));
+                }
+                let tb = &cfg.bonds[bond];
+                let sub = substate(&rolling, &tb.vars);
+                if y.get_vars() != &tb.vars[..] || y.get_inputs() != &sub[..] || y.get_outputs() != &sub[..] || y.is_constant() != tb.constant {
+                    return Err(format!("inserted op at p={} does not match bond {} on the propagated state", p, bond));
+                }
+                if !(diag_weight(tb, &sub) > 0.0) {
+                    return Err(format!("zero-weight operator (bond {}) inserted at p={}", bond, p));
+                }
+            }
+        }
+    }
+    if out.state != rolling {
+        return Err("state after the sweep is not the propagated state".into());
+    }
+    Ok(())
+}
+
